@@ -29,7 +29,7 @@ LEVEL_TEXT = ('Bounded stand-in (labelled bounded, not proved): the framing runs
 LEVEL_NOTE = ('Deciding tier is bounded: streams of Register + 1..3 requests; quick samples the two-way splits (all boundaries included), thorough takes all. '
               'state.run/dfa_base.delegate are not under contract (fragments only, see C10). Other sessions/listener liveness is C08/C09 territory.')
 TECHNIQUE = 'bounded: real enip_machine / enip_srv_tcp / client framing under enumerated segmentations and truncations with a reference encoder; deductive contracts (pyvc, z3/cvc5) on automata.peeking push/peek/__next__, chaining chain/__next__, remembering forget/__next__/push'
-TRUSTED = ['reference encoder contracts/wire.py (written from the layout tables)', 'socket pair / loopback TCP delivery keeps chunk boundaries when sends are spaced by a few ms (not guaranteed by TCP; a coalesced delivery only weakens the test)']
+TRUSTED = ['producer contracts shared with C01 / C07 carry their assumptions (nested producers as opaque byte strings)', 'reference encoder contracts/wire.py (written from the layout tables)', 'socket pair / loopback TCP delivery keeps chunk boundaries when sends are spaced by a few ms (not guaranteed by TCP; a coalesced delivery only weakens the test)']
 ASSUMPTIONS = ['one connection at a time']
 
 
